@@ -814,12 +814,19 @@ impl Number {
     pub fn quotient(&self, rhs: &Self) -> Option<Number> {
         match self {
             Number::Fixnum(lhs) => match rhs {
-                Number::Fixnum(rhs) => Some((lhs / rhs).into()),
+                Number::Fixnum(rhs) => Some(match i64::checked_div(*lhs, *rhs) {
+                    Some(num) => num.into(),
+                    None => (BigInt::from(*lhs) / BigInt::from(*rhs)).into(),
+                }),
                 Number::BigInt(rhs) => Some((BigInt::from(*lhs) / &**rhs).into()),
                 Number::Float(rhs) => lhs.to_f64().map(|lhs| (lhs / rhs).trunc().into()),
                 Number::Rational(rhs) => {
                     if rhs.is_integer() {
-                        Some((*lhs / rhs.to_i64().unwrap()).into())
+                        let rhs = rhs.to_i64().unwrap();
+                        Some(match i64::checked_div(*lhs, rhs) {
+                            Some(num) => num.into(),
+                            None => (BigInt::from(*lhs) / BigInt::from(rhs)).into(),
+                        })
                     } else {
                         None
                     }
@@ -849,7 +856,8 @@ impl Number {
                 Number::BigInt(rhs) => Some((BigInt::from(lhs.to_i64().unwrap()) / &**rhs).into()),
                 Number::Rational(rhs) => {
                     if rhs.is_integer() {
-                        Some((lhs / rhs).into())
+                        // both are integers carried as rationals with 32-bit parts
+                        Some((lhs.to_i64().unwrap() / rhs.to_i64().unwrap()).into())
                     } else {
                         None
                     }
@@ -877,7 +885,8 @@ impl Rem for &Number {
     fn rem(self, rhs: Self) -> Self::Output {
         match self {
             Number::Fixnum(lhs) => match rhs {
-                Number::Fixnum(rhs) => Some((lhs % rhs).into()),
+                // i64::MIN % -1 overflows although the remainder is 0
+                Number::Fixnum(rhs) => Some(i64::checked_rem(*lhs, *rhs).unwrap_or(0).into()),
                 Number::BigInt(rhs) => Some((BigInt::from(*lhs) % &**rhs).into()),
                 Number::Float(rhs) => Some((*lhs as f64 % rhs).into()),
                 Number::Rational(rhs) => {
